@@ -14,6 +14,7 @@ bytes, the same chip afterwards, the same `Ok` / `Err` / panic — for ALL param
 chip contents.
 -/
 open Model.Phy TieA.Phy Gen.PhyCodes127
+set_option linter.unusedSimpArgs false
 
 namespace C13
 
@@ -26,6 +27,14 @@ macro_rules
        PaConfig.value, PaConfig.toInt, RampTime.value, RampTime.toInt, $ds,*]))
 
 /-! ## TX power: PA select, OutputPower, PaDac, OCP, PaRamp -/
+
+/- from `hk : max lo (min hi p) = k` (the translation of `p.clamp(lo, hi)`): the same value written
+`p.max(lo).min(hi)` / `p.min(hi).max(lo)`, so that a clamp spelled differently is evaluated as well -/
+set_option hygiene false in
+macro "clamp_forms" hk:ident lo:term:max hi:term:max p:term:max : tactic => `(tactic| (
+  have hk2 : min (max $p $lo) $hi = max $lo (min $hi $p) := by omega
+  have hk3 : max (min $p $hi) $lo = max $lo (min $hi $p) := by omega
+  rw [$hk:ident] at hk2 hk3))
 
 /-- `Sx1276::set_tx_power` (translated from the current source, with `write_register` / `set_ocp`) IS the
 model's `setTxPower` on an SX1276: RegPaDac (0x84 / 0x87), RegOcp (100 mA / 240 mA), RegPaConfig
@@ -44,7 +53,8 @@ theorem tieA_sx1276_set_tx_power (radio : Gen.PhyEnc1276.Sx127x) (cfg : Sx127x.C
       simp only [AllFrom, Int.reduceAdd, Int.reduceNeg, and_true]
       refine ⟨?_, ?_, ?_, ?_, ?_, ?_, ?_, ?_, ?_, ?_, ?_, ?_, ?_, ?_, ?_, ?_, ?_, ?_, ?_⟩ <;> (
         intro c log hk
-        simp only [Gen.PhyEnc1276.Sx1276.set_tx_power, Sx127x.setTxPower, Sx127x.clampI, hk]
+        clamp_forms hk (-4) 14 p
+        simp only [Gen.PhyEnc1276.Sx1276.set_tx_power, Sx127x.setTxPower, Sx127x.clampI, hk, hk2, hk3]
         try gen_unfold_helpers_PhyEnc1276
         phy_tie127 [] []
         try rfl))
@@ -55,7 +65,8 @@ theorem tieA_sx1276_set_tx_power (radio : Gen.PhyEnc1276.Sx127x) (cfg : Sx127x.C
       simp only [AllFrom, Int.reduceAdd, and_true]
       refine ⟨?_, ?_, ?_, ?_, ?_, ?_, ?_, ?_, ?_, ?_, ?_, ?_, ?_, ?_, ?_, ?_, ?_, ?_, ?_⟩ <;> (
         intro c log hk
-        simp only [Gen.PhyEnc1276.Sx1276.set_tx_power, Sx127x.setTxPower, Sx127x.clampI, hk]
+        clamp_forms hk 2 20 p
+        simp only [Gen.PhyEnc1276.Sx1276.set_tx_power, Sx127x.setTxPower, Sx127x.clampI, hk, hk2, hk3]
         try gen_unfold_helpers_PhyEnc1276
         phy_tie127 [] []
         try rfl))
@@ -83,7 +94,8 @@ theorem tieA_sx1272_set_tx_power (radio : Gen.PhyEnc1272.Sx127x) (cfg : Sx127x.C
       simp only [AllFrom, Int.reduceAdd, Int.reduceNeg, and_true]
       refine ⟨?_, ?_, ?_, ?_, ?_, ?_, ?_, ?_, ?_, ?_, ?_, ?_, ?_, ?_, ?_, ?_⟩ <;> (
         intro c log hk
-        simp only [Gen.PhyEnc1272.Sx1272.set_tx_power, Sx127x.setTxPower, Sx127x.clampI, hk]
+        clamp_forms hk (-1) 14 p
+        simp only [Gen.PhyEnc1272.Sx1272.set_tx_power, Sx127x.setTxPower, Sx127x.clampI, hk, hk2, hk3]
         try gen_unfold_helpers_PhyEnc1272
         phy_tie127 [] []
         try rfl))
@@ -95,7 +107,11 @@ theorem tieA_sx1272_set_tx_power (radio : Gen.PhyEnc1272.Sx127x) (cfg : Sx127x.C
         simp only [AllFrom, Int.reduceAdd, and_true]
         refine ⟨?_, ?_, ?_⟩ <;> (
           intro c log hk
-          simp only [Gen.PhyEnc1272.Sx1272.set_tx_power, Sx127x.setTxPower, Sx127x.clampI, hk, hp, decide_true, if_true]
+          clamp_forms hk 5 20 p
+          have hk4 : min p 20 = max 5 (min 20 p) := by omega
+          have hk5 : min 20 p = max 5 (min 20 p) := by omega
+          rw [hk] at hk4 hk5
+          simp only [Gen.PhyEnc1272.Sx1272.set_tx_power, Sx127x.setTxPower, Sx127x.clampI, hk, hk2, hk3, hk4, hk5, hp, decide_true, if_true]
           try gen_unfold_helpers_PhyEnc1272
           phy_tie127 [] []
           try rfl))
@@ -106,7 +122,11 @@ theorem tieA_sx1272_set_tx_power (radio : Gen.PhyEnc1272.Sx127x) (cfg : Sx127x.C
         simp only [AllFrom, Int.reduceAdd, and_true]
         refine ⟨?_, ?_, ?_, ?_, ?_, ?_, ?_, ?_, ?_, ?_, ?_, ?_, ?_, ?_, ?_, ?_⟩ <;> (
           intro c log hk
-          simp only [Gen.PhyEnc1272.Sx1272.set_tx_power, Sx127x.setTxPower, Sx127x.clampI, hk, hp, decide_false, if_false]
+          clamp_forms hk 2 17 p
+          have hk4 : max p 2 = max 2 (min 17 p) := by omega
+          have hk5 : max 2 p = max 2 (min 17 p) := by omega
+          rw [hk] at hk4 hk5
+          simp only [Gen.PhyEnc1272.Sx1272.set_tx_power, Sx127x.setTxPower, Sx127x.clampI, hk, hk2, hk3, hk4, hk5, hp, decide_false, if_false]
           try gen_unfold_helpers_PhyEnc1272
           phy_tie127 [] []
           try rfl))
